@@ -12,7 +12,12 @@ SKEL_TB = "the go/ast skeleton extractor (extract/lifecycle.go): a syntactic red
 def _streams(prop, quick_random, thorough_random):
     def f(tier):
         n = quick_random if tier == "quick" else thorough_random
-        return [("life" + prop, ["-tier", tier, "-n", str(n)]), ("lifesock" + prop, ["-tier", tier])]
+        out = [("life" + prop, ["-tier", tier, "-n", str(n)]), ("lifesock" + prop, ["-tier", tier])]
+        if prop == "14" and tier == "thorough":
+            # probabilistic schedule (Bind concurrent with DoListen's start-up), run in a child process; a hit is the
+            # known finding `bind-concurrent-with-serve-start-not-refused-shutdown-does-not-end-serving`; quick stays deterministic
+            out.append(("lifeprobe", ["-n", "300"]))
+        return out
     return f
 
 
@@ -40,7 +45,9 @@ PROPS = {
         "rule": "all histories (quick 5, thorough 6 events after Bind+DoListen(timeout)) over {connect, connect with Shutdown in the next "
                 "SetDeadline, call, close, abort, accept-deadline expiry, expiry with Shutdown placed before Accept returns, expiry with "
                 "Shutdown placed in the next SetDeadline, Shutdown} with expiries injected through the controlled listener, the same "
-                "without a timeout and with a connection queued before serving starts, random longer ones, and real-clock histories "
+                "without a timeout and with a connection queued before serving starts, random longer ones, all histories of 4 (5) events over "
+                "{connect, call, close, abort, expiry, Shutdown} with Listen on real unix-path / abstract / tcp sockets and expiries "
+                "injected on the real listener (SetDeadline in the past; drives Listen's own timeout branch deterministically), and real-clock histories "
                 "(timeout 400 ms, sleeps of 480 ms) with Listen on unix-path / abstract / tcp sockets incl. immediate re-listen on "
                 "the same address; non-trivial = a connection open at an expiry or Shutdown",
         "trusted_base": [NET_TB, SCHED_TB, SKEL_TB],
